@@ -25,6 +25,8 @@ type hist struct {
 	root  httpCred
 	log   []map[string]any
 	names [nUsers]string
+
+	createWithoutFlag bool // the save in progress creates an account and leaves update_password out
 }
 
 func (h *hist) note(kv map[string]any) { h.log = append(h.log, kv) }
@@ -57,10 +59,25 @@ func (h *hist) stepSave(u int) {
 	withPass := !old.Exists || rapid.Bool().Draw(h.t, "withPassword")
 	if withPass {
 		h.m.passN++
-		nu.Prev, nu.Pass = old.Pass, fmt.Sprintf("pw-%d-%d", u, h.m.passN)
+		prev := old.Pass
+		if prev == "" {
+			prev = old.Prev // the password of the account that was deleted under this name
+		}
+		nu.Prev, nu.Pass = prev, fmt.Sprintf("pw-%d-%d", u, h.m.passN)
 	}
 	via := rapid.SampledFrom([]string{"api", "api", "direct"}).Draw(h.t, "via")
+	// docs/apis.md: update_password matters "if the user already exists"; an account
+	// that is being created takes the password it is saved with, flag or no flag
+	// (after seeded change C11-R6B: a re-created name kept the deleted account's password)
+	h.createWithoutFlag = !old.Exists && rapid.Bool().Draw(h.t, "createWithoutFlag")
+	if h.createWithoutFlag {
+		evid.Class("admin:create-without-update_password")
+		if old.Pass != "" || old.Prev != "" {
+			evid.Class("admin:re-create-of-a-deleted-name-without-update_password")
+		}
+	}
 	h.applySave(u, nu, withPass, via)
+	h.createWithoutFlag = false
 }
 
 // applySave performs one administrator's save of user u (through the API or the
@@ -95,13 +112,13 @@ func (h *hist) applySave(u int, nu mUser, withPass bool, via string) {
 	}
 	if via == "api" {
 		q := "/api/v1/users"
-		if withPass {
+		if withPass && !h.createWithoutFlag {
 			q += "?update_password=1"
 		}
 		if st, body := h.sh.api("POST", q, h.root, rec); st != 200 {
 			h.fail("admin-refused", "the administrator's POST %s for %s answered %d %s", q, h.names[u], st, head(body, 120))
 		}
-	} else if err := auth.Save(rec, withPass); err != nil {
+	} else if err := auth.Save(rec, withPass && !h.createWithoutFlag); err != nil {
 		h.machinery("auth.Save: %v", err)
 	}
 	if n := h.m.install(u, nu); n > 0 {
@@ -125,7 +142,11 @@ func (h *hist) applyDelete(u int, via string) {
 	} else {
 		auth.Del(name)
 	}
-	h.m.install(u, mUser{})
+	gone := mUser{Prev: h.m.users[u].Pass}
+	if gone.Prev == "" {
+		gone.Prev = h.m.users[u].Prev
+	}
+	h.m.install(u, gone) // Exists = false; the old password is remembered as one that must never work again
 	evid.Class("admin:delete")
 }
 
